@@ -18,8 +18,8 @@ RULE = (
 ASSUMPTIONS = ["reference model routes parameters by function name by construction (params[name][arg])"]
 BATCH = {"quick": 4, "thorough": 8}
 TIMEOUT = {"quick": 1500, "thorough": 7200}
-FLOORS = {"quick": {"templates_compared": 100, "leaf_changes_checked": 150, "shock_shapes_compared": 30, "dependency_permutations": 12, "collision_models": 30},
-          "thorough": {"templates_compared": 1200, "leaf_changes_checked": 2000, "shock_shapes_compared": 400, "dependency_permutations": 150, "collision_models": 400}}
+FLOORS = {"quick": {"templates_compared": 100, "template_filled_in_place": 40, "leaf_changes_checked": 150, "shock_shapes_compared": 30, "dependency_permutations": 12, "collision_models": 30},
+          "thorough": {"templates_compared": 1200, "template_filled_in_place": 400, "leaf_changes_checked": 2000, "shock_shapes_compared": 400, "dependency_permutations": 150, "collision_models": 400}}
 
 
 def plan(tier, seed):
@@ -119,6 +119,38 @@ def run_case(case):
                 return
 
     solve_and_compare(params, "base parameters")
+
+    # the usual workflow: fill the RETURNED template in place (one leaf after the other)
+    def fill_in_place(t, p):
+        import copy
+
+        import jax.numpy as jnp
+
+        t = copy.deepcopy(t)
+        for fn, ps in p.items():
+            if fn == "beta":
+                t["beta"] = ps
+            elif fn == "shocks":
+                for s_, a_ in ps.items():
+                    t["shocks"][s_] = jnp.asarray(np.asarray(a_, dtype=float))
+            else:
+                for k_, v_ in ps.items():
+                    t[fn][k_] = v_
+        return t
+
+    try:
+        filled = fill_in_place(tmpl, params)
+        out_f = pipeline.to_np_list(f(filled))
+        add("template_filled_in_place")
+        for t in range(ref.T):
+            exp = ref.to_lcm_layout(sol["V"][t], t)
+            if out_f[t].shape != exp.shape or maxdev(out_f[t], exp) > tol:
+                res["violations"].append({"key": "template_filled_in_place_mismatch", "what": f"filling the returned template in place (params[f][p] = value for every leaf) and solving gives values that differ from the reference in period {t}: equal parameter names in different functions interact ({collisions})"})
+                break
+    except KeyError as e:
+        res["violations"].append({"key": "template_mismatch", "what": f"template cannot be filled with the model's parameters: missing {e}"})
+    except Exception as e:  # noqa: BLE001
+        res["violations"].append({"key": pipeline.exc_key(e, "solve_filled_template"), "what": pipeline.exc_text(e)})
     frozen = {tuple(x) for x in desc.get("frozen_params", ())}
     leaves = [(fn, p) for fn, ps in params.items() if isinstance(ps, dict) and fn != "shocks" for p in ps if (fn, p) not in frozen]
     order = rng.permutation(len(leaves))[:3] if leaves else []
